@@ -15,11 +15,12 @@
    REPEAT with no axis: C13_repeat_flat_scalar — one count k emits every element of the flattened array k consecutive
    times (the stretch of the count to the array's shape is inside the theorem); C13_repeat_flat_counts — one count per
    element of a rank-1 array emits element i count_i times.
-   NOT YET PROVED (checked by the correspondence run): repeat along axis 0 of a rank-1 array as an array-level statement.
+   C13_repeat_rank1 — along axis 0 of a rank-1 array element i is emitted count_i consecutive times (the split into
+   one-element pieces, the re-assembly and the identity axis move are inside the theorem).
    insert along an axis is outside the property's text (it speaks of flat positions) and is checked as a model/code
    correspondence only. *)
 From Coq Require Import Sorted.
-From ArrRs Require Import Index Axis Axis_proofs Broadcast_proofs Reduce Along_proofs Edit Edit_proofs Delete_proofs Broadcast Insert_proofs Repeat_proofs Repeat_flat Join_refuse.
+From ArrRs Require Import Index Axis Axis_proofs Broadcast_proofs Reduce Along_proofs Edit Edit_proofs Delete_proofs Broadcast Insert_proofs Repeat_proofs Repeat_flat Join_refuse Repeat_rank1.
 
 Theorem C13_trim : forall (A : Type) (p : A -> bool) l,
   let t := drop_while p (rev (drop_while p (rev l))) in
@@ -99,6 +100,13 @@ Proof. exact @insert_flat_spec. Qed.
 Theorem C13_insert_flat_refuses : forall (T : Type) (d : T) (a values : arr T) idx i,
   In i idx -> len a < i -> insert_flat d a idx values = Err EOob.
 Proof. exact @insert_flat_refuse. Qed.
+
+Theorem C13_repeat_rank1 : forall (T : Type) (d : T) (a : arr T) repeats n rb,
+  wf a -> shape a = [n] -> 0 < n ->
+  broadcast_to 0 (mk repeats [length repeats]) [n] = Ok rb -> length (elems rb) = n ->
+  repeat_arr d a repeats (Some 0) =
+    Ok (mk (flat_map (fun p => repeat (fst p) (snd p)) (combine (elems a) (elems rb))) [fold_left Nat.add (elems rb) 0]).
+Proof. exact @repeat_rank1. Qed.
 
 Theorem C13_repeat_flat_scalar : forall (T : Type) (dflt : T) (a : arr T) k,
   wf a -> shape a <> [] -> pos_shape (shape a) ->
